@@ -111,6 +111,7 @@ type FnCtx struct {
 	wherePos   string
 	localTypes map[string]types.Type
 	inPattern bool
+	qcount int
 	callOrd map[*ast.CallExpr]int
 	stmtAssertHit map[*Clause]bool
 	globalFacts []string
